@@ -502,7 +502,8 @@ void SoPlex_changeVarLowerReal(void* soplex, int colidx, double lb)
 void SoPlex_getLowerReal(void* soplex, double* lb, int dim)
 {
    SoPlex* so = (SoPlex*)(soplex);
-   Vector lbvec(dim);
+   /* the C++ getter expects a vector of the dimension of the LP (it asserts that when the LP is scaled) */
+   Vector lbvec(so->numCols());
 
    so->getLowerReal(lbvec);
 
@@ -515,7 +516,8 @@ void SoPlex_getLowerReal(void* soplex, double* lb, int dim)
 void SoPlex_getObjReal(void* soplex, double* obj, int dim)
 {
    SoPlex* so = (SoPlex*)(soplex);
-   Vector objvec(dim);
+   /* the C++ getter expects a vector of the dimension of the LP (it asserts that when the LP is scaled) */
+   Vector objvec(so->numCols());
 
    so->getObjReal(objvec);
 
@@ -543,7 +545,8 @@ void SoPlex_changeVarUpperReal(void* soplex, int colidx, double ub)
 void SoPlex_getUpperReal(void* soplex, double* ub, int dim)
 {
    SoPlex* so = (SoPlex*)(soplex);
-   Vector ubvec(dim);
+   /* the C++ getter expects a vector of the dimension of the LP (it asserts that when the LP is scaled) */
+   Vector ubvec(so->numCols());
 
    so->getUpperReal(ubvec);
 
